@@ -70,7 +70,7 @@ def pc_mutations(case, lo, kinds=None):
             continue
         opk = case.meta["ops"][t]["kind"]
         if m["expect"] == "reject" and r == "accept":
-            fails.append("%s %s verifier accepts mutated input: %s %s" % (sch, opk, m["kind"], " ".join(m["args"][:1] if m["kind"] in ("proofs", "comm_mut", "proof_mut") else [])))
+            fails.append("%s %s verifier accepts mutated input: %s %s" % (sch, opk, m["kind"], " ".join(m["args"][:2] if m["kind"] in ("proofs", "comm_mut", "proof_mut", "proof_mut_v", "attack") else [])))
         elif m["expect"] == "accept" and r != "accept":
             fails.append("%s %s verifier does not accept harmless variation: %s -> %s" % (sch, opk, m["kind"], r))
     return fails
